@@ -3,7 +3,9 @@ package main
 import (
 	"fmt"
 	"math"
+	"os"
 	"runtime"
+	"sync/atomic"
 	"sort"
 	"strings"
 	"time"
@@ -17,6 +19,8 @@ import (
 )
 
 func init() { register("C17", runC17) }
+
+var c17Handlers int64
 
 func runC17(c *mon.Ctx) {
 	c.Cases(func(i int, r *mon.Rand) {
@@ -415,6 +419,28 @@ func c17Conflicts(c *mon.Ctx, r *mon.Rand) {
 		}
 	}
 	rep := tprom.NewReporter(tprom.Options{Registerer: reg, DefaultTimerType: defType, OnRegisterError: cb})
+	// every 16th scenario builds the reporter from a Configuration instead: the
+	// callback is then the one the configuration selects ("none", "log",
+	// "stderr" must return; the default panics with the error itself)
+	cfgMode := ""
+	viaConfig := r.Chance(1, 16)
+	if viaConfig {
+		cfgMode = r.Pick("none", "log", "stderr", "")
+		tt := "summary"
+		if defType == tprom.HistogramTimerType {
+			tt = "histogram"
+		}
+		n := atomic.AddInt64(&c17Handlers, 1)
+		cr, err := tprom.Configuration{OnError: cfgMode, TimerType: tt, HandlerPath: fmt.Sprintf("/metrics-%d-%d", os.Getpid(), n)}.NewReporter(tprom.ConfigurationOptions{Registry: reg})
+		if err != nil {
+			c.Violation("configuration-newreporter-error", map[string]interface{}{"why": err.Error(), "case": desc})
+			return
+		}
+		rep = cr
+		desc["via_configuration_onerror"] = cfgMode
+		panicking = cfgMode == ""
+		c.Class("conflicts-through-Configuration-"+cfgMode, 1)
+	}
 	var sc tally.Scope
 	if viaScope {
 		sc, _ = tally.VerifNewRootScope(tally.ScopeOptions{CachedReporter: rep, Separator: "_", OmitCardinalityMetrics: true}, 0, 1)
@@ -429,6 +455,12 @@ func c17Conflicts(c *mon.Ctx, r *mon.Rand) {
 				_ = cp
 				c.Class("callback-panics-observed", 1)
 				return
+			}
+			if err, isErr := p.(error); isErr && viaConfig && cfgMode == "" {
+				if _, rt := err.(runtime.Error); !rt {
+					c.Class("callback-panics-observed", 1) // the configuration's default callback panics with the error
+					return
+				}
 			}
 			sig := "prometheus-panic"
 			if _, ok := p.(runtime.Error); ok {
